@@ -81,10 +81,43 @@ def handle (op : String) (args : Array String) : Option String :=
         -- C10: the model is the executable definition (the algorithm with the library's refinements), so the
         -- specification stream is the model's answer: a different result is a concrete violation
         -- the specification stream is computed by the executable rendering of the definition (VModel/StateResSpecExec.lean),
-        -- which shares no loop with the model; version 1 keeps the model's answer
+        -- which shares no loop with the model (version 1: `Exec.v1Result`, the definition `V1Result` executed)
         let algo := ((versionRow? p.ver).map (·.stateResAlgorithm)).getD 0
-        let specIDs := if algo == 2 || algo == 3 then V.StateResSpec.Exec.resolve algo p.sets p.auth p.rejected else ids
+        let specIDs := if algo == 2 || algo == 3 then V.StateResSpec.Exec.resolve algo p.sets p.auth p.rejected
+          else if algo == 1 then V.StateResSpec.Exec.v1Result p.sha p.sets p.auth else ids
         some (showIDs ids ++ "\t" ++ showIDs specIDs)
+  | "resolve_twice", ver :: setsS :: authS :: rejS :: shaS :: nS :: evArgs =>
+    -- history A and a history B re-using A's event IDs with other contents, resolved in ONE process in the order B, A, B, A:
+    -- C11 "on every run of the process" demands the same answer for the two runs of A, namely what A resolves to on its
+    -- own (the model is a function of its arguments, so its answer is the resolution of A followed by `same`)
+    match parseArgs ver setsS authS rejS shaS (evArgs.take nS.toNat!) with
+    | none => some "bad-op"
+    | some p =>
+      match resolveConflictsNew p.sha p.ver p.sets p.auth p.rejected with
+      | none => some "err|same"
+      | some ids =>
+        let algo := ((versionRow? p.ver).map (·.stateResAlgorithm)).getD 0
+        let specIDs := if algo == 2 || algo == 3 then V.StateResSpec.Exec.resolve algo p.sets p.auth p.rejected
+          else if algo == 1 then V.StateResSpec.Exec.v1Result p.sha p.sets p.auth else ids
+        some (showIDs ids ++ "|same\t" ++ showIDs specIDs ++ "|same")
+  | "resolve_cyc", ver :: setsS :: authS :: rejS :: shaS :: evArgs =>
+    -- room versions 1 / 2 with sender-chosen event IDs: the auth graph may be CYCLIC (the harness runs the op in a child
+    -- process).  The algorithm's definition (C10) speaks about DAGs only, so there is no specification answer for the
+    -- resolved state; what C18 / C11 demand of such inputs — the call returns (any `panic:` outcome is a concrete
+    -- violation), the result is well formed (`resolve_props` on the implementation's answer) — is checked apart.
+    match parseArgs ver setsS authS rejS shaS evArgs with
+    | none => some "bad-op"
+    | some p =>
+      match resolveConflictsNew p.sha p.ver p.sets p.auth p.rejected with
+      | none => some "err"
+      | some ids => some (showIDs ids ++ "\tunspecified:cyclic auth_events are outside the algorithm's definition")
+  | "resolve_old_cyc", ver :: setsS :: authS :: rejS :: shaS :: evArgs =>
+    match parseArgs ver setsS authS rejS shaS evArgs with
+    | none => some "bad-op"
+    | some p =>
+      match resolveConflictsOld p.sha p.ver p.sets.flatten p.auth p.rejected with
+      | none => some "err"
+      | some ids => some (showIDs ids)
   | "stages", ver :: setsS :: authS :: rejS :: shaS :: evArgs =>
     match parseArgs ver setsS authS rejS shaS evArgs with
     | none => some "bad-op"
